@@ -204,7 +204,7 @@ func (b *c01Built) lookup(e *env, key uint32, op ring.Operation, api string, buf
 		}
 		ids = strings.Join(s, ",")
 	}
-	e.emit("C01.get", b.cfg.String(), "0", b.relEnc, strconv.FormatUint(uint64(key), 10), strconv.FormatUint(uint64(op), 10), api,
+	e.emit("C01.get", b.cfg.String(), "0", b.relEnc, strconv.FormatUint(uint64(key), 10), c01OpName(op), api,
 		u32s(b.toks), ids, itoa(rs.MaxErrors), cls)
 }
 
@@ -227,6 +227,23 @@ func c01Keys(r *rng, d *ring.Desc, nRandom int) []uint32 {
 	}
 	sort.Slice(keys, func(a, b int) bool { return keys[a] < keys[b] })
 	return keys
+}
+
+// c01OpName names the four built-in operations (the model and the judge then use their DOCUMENTED
+// healthy/extending states, not whatever mask the running code computed for them); any other
+// operation is written as its numeric mask.
+func c01OpName(op ring.Operation) string {
+	switch op {
+	case ring.Write:
+		return "W"
+	case ring.WriteNoExtend:
+		return "WN"
+	case ring.Read:
+		return "R"
+	case ring.Reporting:
+		return "Rep"
+	}
+	return strconv.FormatUint(uint64(op), 10)
 }
 
 func c01RandOp(r *rng) ring.Operation {
